@@ -138,7 +138,7 @@ def cutPos : Cut → Int × Int × Int
 def cutLt (a b : Cut) : Bool :=
   let (a1, a2, a3) := cutPos a
   let (b1, b2, b3) := cutPos b
-  a1 < b1 || (a1 == b1 && (a2 < b2 || (a2 == b2 && a3 < b3)))
+  decide (a1 < b1 ∨ (a1 = b1 ∧ (a2 < b2 ∨ (a2 = b2 ∧ a3 < b3))))
 
 /-- `!colExpr.IsEmpty()` (`pruneEmptyRanges` drops a range with an empty column) -/
 def colNonEmpty (e : ColExpr) : Bool := cutLt e.lo e.hi
@@ -220,16 +220,27 @@ def incrementTuple (maxInt : Int) (t : Tuple) (n : Nat) : Option Tuple :=
   | some (some v) => if v ≥ maxInt then none else some (t.take n ++ [some (v + 1)])
   | _ => none
 
+/-- tree path of `IterRange`: `treeIterFromRange` (two searches) -/
+def treePartition (idx : List Tuple) (fields : List RangeField) : List Tuple :=
+  slice idx (findFirst (aboveStart fields) idx) (findFirst (fun t => !belowStop fields t) idx)
+
+/-- key-range path of `IterRange`: `IterKeyRange [Tup, stop)` -/
+def keyPartition (idx : List Tuple) (tup stop : Tuple) : List Tuple :=
+  slice idx (findFirst (fun t => tle tup t) idx) (findFirst (fun t => tle stop t) idx)
+
+/-- the stop key when `KeyRangeLookup` succeeds -/
+def keyRangeStop (maxInt : Int) (nullable : List Bool) (r : PRange) : Option Tuple :=
+  (keyRangeN r.fields nullable).bind (fun n => incrementTuple maxInt r.tup n)
+
+/-- `filteredIter` is added unless the range is contiguous and its types are precise -/
+def postFilter (r : PRange) (phys : List Tuple) : List Tuple :=
+  if !r.skipMatch || !r.isContiguous then phys.filter (rmatches r.fields) else phys
+
 /-- `prolly.Map.IterRange` over the sorted key list of an index -/
 def iterRange (maxInt : Int) (nullable : List Bool) (idx : List Tuple) (r : PRange) : List Tuple :=
-  let phys :=
-    match (keyRangeN r.fields nullable).bind (fun n => (incrementTuple maxInt r.tup n).map (fun s => (n, s))) with
-    | some (_, stop) =>
-      -- IterKeyRange [Tup, stop)
-      slice idx (findFirst (fun t => tle r.tup t) idx) (findFirst (fun t => tle stop t) idx)
-    | none =>
-      slice idx (findFirst (aboveStart r.fields) idx) (findFirst (fun t => !belowStop r.fields t) idx)
-  if !r.skipMatch || !r.isContiguous then phys.filter (rmatches r.fields) else phys
+  match keyRangeStop maxInt nullable r with
+  | some stop => postFilter r (keyPartition idx r.tup stop)
+  | none => postFilter r (treePartition idx r.fields)
 
 /-- the index range scan of one SQL range (pruned when empty) -/
 def rangeScan (maxInt : Int) (nullable : List Bool) (idx : List Tuple) (r : List ColExpr) : List Tuple :=
